@@ -337,6 +337,8 @@ def undamped_overdetermined(rnd, i):
     elif which == 1:
         kind, conf, coords, data, w = gen_spline(rnd, 2 * i + 1)
         conf["damping"] = None
+        nmax = max(2, np.size(data) - 2)      # stay over-determined even after one datum is dropped
+        conf["force_coords"] = [conf["force_coords"][0][:nmax], conf["force_coords"][1][:nmax]]
     else:
         kind, conf, coords, data, w = gen_vector(rnd, 2 * i + 1)
         conf["damping"] = None
@@ -417,6 +419,56 @@ def finding_key(case):
     return None
 
 
+def gen_duplicates(rnd, i, kind):
+    """re-occupied stations: 1..5 exactly repeated locations with DIFFERENT data values, damped fit with the forces at
+    the data (force_coords=None): one force per datum, duplicate Jacobian columns, still a well-conditioned damped problem"""
+    base = rnd.randint(4, 10) if kind == "vector" else rnd.randint(5, 18)
+    e, nn, scale = make_cloud(rnd, base, offset=rnd.choice([0.0, 0.0, 2.0]) * rnd.uniform(-1, 1))
+    rep = [rnd.randrange(base) for _ in range(rnd.randint(1, 5))]      # may repeat the same station several times
+    e = np.concatenate([e, e[rep]])
+    nn = np.concatenate([nn, nn[rep]])
+    perm = list(range(e.size))
+    rnd.shuffle(perm)
+    e, nn = e[perm], nn[perm]
+    n = e.size
+    damping = 10.0 ** rnd.uniform(-6, 1)
+    if kind == "vector":
+        conf = {"poisson": [0.5, -1.0, rnd.uniform(-1, 1)][i % 3], "mindist": scale * 10.0 ** rnd.uniform(-2, -0.5), "damping": damping}
+        data = (np.array([rnd.gauss(0, 1) for _ in range(n)]), np.array([rnd.gauss(0, 3) for _ in range(n)]))
+        w = None if i % 2 else (np.array([rnd.uniform(0.1, 1.0) for _ in range(n)]), np.array([rnd.uniform(5.0, 30.0) for _ in range(n)]))
+    else:
+        conf = {"damping": damping, "mindist": [None, 0.0, 1e-3 * scale][i % 3]}
+        data = np.array([rnd.gauss(0, 1) for _ in range(n)]) * 10.0 ** rnd.uniform(-2, 2)
+        w = None if i % 2 else np.array([rnd.uniform(0.1, 3.0) for _ in range(n)])
+    return kind, conf, (e, nn), data, w
+
+
+FORCE_COUNTS_QUICK = [1, 2, 31, 32, 33, 64, 65]
+FORCE_COUNTS_THOROUGH = list(range(1, 71)) + [96, 97, 128, 129]
+
+
+def gen_force_count(rnd, kind, k, at_data, i):
+    """a prescribed NUMBER of forces k (not only 'typical' sizes: 1, 2, around 32 and 64, ...): forces at the data with
+    exactly k data points, or a separate set of k forces (also a single force) fitted to a handful of points; damped, so
+    that under-determined layouts are well posed"""
+    scale = 10.0 ** rnd.uniform(-1, 5)
+    n = k if at_data else (rnd.randint(3, 7) if kind == "vector" else rnd.randint(4, 10))
+    e = scale * np.array([rnd.random() for _ in range(n)])
+    nn = scale * np.array([rnd.random() for _ in range(n)])
+    damping = 10.0 ** rnd.uniform(-4, 0)
+    if kind == "vector":
+        conf = {"poisson": [0.5, rnd.uniform(-1, 1), -1.0, 1.0][i % 4], "mindist": scale * 10.0 ** rnd.uniform(-1.5, -0.5), "damping": damping}
+        data = (np.array([rnd.gauss(0, 1) for _ in range(n)]), np.array([rnd.gauss(0, 2) for _ in range(n)]))
+        w = None if i % 3 else (np.array([rnd.uniform(0.1, 1.0) for _ in range(n)]), np.array([rnd.uniform(5.0, 30.0) for _ in range(n)]))
+    else:
+        conf = {"damping": damping, "mindist": None}
+        data = np.array([rnd.gauss(0, 1) for _ in range(n)])
+        w = None if i % 3 else np.array([rnd.uniform(0.1, 3.0) for _ in range(n)])
+    if not at_data:
+        conf["force_coords"] = [[scale * rnd.uniform(-0.1, 1.1) for _ in range(k)], [scale * rnd.uniform(-0.1, 1.1) for _ in range(k)]]
+    return kind, conf, (e, nn), data, w
+
+
 def generate(tier, seed):
     rnd = random.Random(seed)
     cases = []
@@ -450,6 +502,15 @@ def generate(tier, seed):
         cases.append(gen_weights_times_constant(rnd, i))
     for i in range(nmeta[1]):
         cases.append(gen_weight_to_zero(rnd, i))
+    for i in range(10 if tier == "quick" else 80):
+        cases.append(fit_case(*gen_duplicates(rnd, i, "spline"), stream="duplicate-locations/spline-damped"))
+    for i in range(6 if tier == "quick" else 48):
+        cases.append(fit_case(*gen_duplicates(rnd, i, "vector"), stream="duplicate-locations/vector-damped"))
+    for j, k in enumerate(FORCE_COUNTS_QUICK if tier == "quick" else FORCE_COUNTS_THOROUGH):
+        for kind in ("spline", "vector"):
+            for at_data in (True, False):
+                cases.append(fit_case(*gen_force_count(rnd, kind, k, at_data, j),
+                                      stream="force-count/%s-%s" % (kind, "at-data" if at_data else "separate")))
     frnd = random.Random(180218)     # the finding cases do not depend on the run's seed
     for i in range(4):
         cases.append(gen_damped_weight_to_zero(frnd, i))
